@@ -347,7 +347,7 @@ func dumpCollector(c *metrics.Collector, withTimers bool) string {
 	return s
 }
 
-type histShadow struct {
+type mHistShadow struct {
 	obs     []float64
 	buckets []float64 // nil = default
 	sorted  bool
@@ -357,7 +357,7 @@ func sameFloat(a, b float64) bool {
 	return math.Float64bits(a) == math.Float64bits(b) || (math.IsNaN(a) && math.IsNaN(b))
 }
 
-func (s *histShadow) check(h *metrics.Histogram, mon *Mon, op string) {
+func (s *mHistShadow) check(h *metrics.Histogram, mon *Mon, op string) {
 	if h.Count() != int64(len(s.obs)) {
 		mon.Hit("C18", "hist-count-wrong", map[string]interface{}{"count": h.Count(), "observations": len(s.obs), "op": op})
 	}
@@ -382,7 +382,7 @@ func pctSafe(h *metrics.Histogram, p float64) (v float64, panicked bool) {
 var gridPs = []float64{0, 25, 50, 75, 90, 95, 99, 100}
 
 // grid evaluates Percentile over p = 0, 0.5, ..., 100 and checks it never decreases (sorted buckets only).
-func (s *histShadow) grid(h *metrics.Histogram, mon *Mon, op string) string {
+func (s *mHistShadow) grid(h *metrics.Histogram, mon *Mon, op string) string {
 	if s.sorted {
 		prev, prevP := math.Inf(-1), -1.0
 		for i := 0; i <= 200; i++ {
@@ -436,9 +436,9 @@ func execMetrics(ops []string, mon *Mon) []string {
 	identPtr := map[string]map[string]interface{}{"counter": {}, "gauge": {}, "hist": {}, "timer": {}}
 	ptrIdents := map[interface{}]map[string]bool{}
 	ctrExpected := map[*metrics.Counter]int64{}
-	hists := map[*metrics.Histogram]*histShadow{}
+	hists := map[*metrics.Histogram]*mHistShadow{}
 	xs := map[int]*metrics.Histogram{}
-	xsh := map[int]*histShadow{}
+	xsh := map[int]*mHistShadow{}
 	enabled := true
 	var mdb *database.MonitoredDatabase
 	mdbEnabled, mdbSearches, mdbLoads := true, int64(0), int64(0)
@@ -577,7 +577,7 @@ func execMetrics(ops []string, mon *Mon) []string {
 			h := lookup("hist", id, o).(*metrics.Histogram)
 			sh := hists[h]
 			if sh == nil {
-				sh = &histShadow{sorted: true}
+				sh = &mHistShadow{sorted: true}
 				hists[h] = sh
 			}
 			switch f[0] {
@@ -605,7 +605,7 @@ func execMetrics(ops []string, mon *Mon) []string {
 				bs = append(bs, parseF(f[3+i]))
 			}
 			xs[id] = metrics.NewHistogramWithBuckets("x", bs, nil)
-			xsh[id] = &histShadow{buckets: bs, sorted: sort.Float64sAreSorted(bs) && len(bs) > 0}
+			xsh[id] = &mHistShadow{buckets: bs, sorted: sort.Float64sAreSorted(bs) && len(bs) > 0}
 			if len(bs) == 0 {
 				mon.Tag("custom-empty-buckets")
 			}
